@@ -1,5 +1,8 @@
 """Helpers shared by the per-property check modules."""
+import os
 import threading
+import traceback
+import types
 
 
 def swarm(rng, racy=0.3, line=0.25, strategies=('random', 'random', 'weighted', 'weighted', 'sticky', 'pct'), starve=0.0, **extra):
@@ -72,8 +75,43 @@ def make_exc(kind, x):
     return t(('boom', x))
 
 
+_VERIF_DIR = os.path.dirname(os.path.dirname(os.path.abspath(__file__))) + os.sep
+
+
+def note_exc(e):
+    """Every exception a check looks at passes through here. A NameError raised by a line of /verif, or an AttributeError raised by a
+    line of /verif about an object (or module) that /verif itself defines, is a programming error of the harness whatever the library
+    did: the run is then classed harness-error (exit 2), never violation (DESIGN B.4, "AsyncSource without odd"). Deliberately narrow:
+    TypeError, KeyError, AssertionError ... in harness callbacks stay violations (the strict worker code raises them when the library
+    hands it something wrong). Touches neither the event log nor the PRNG."""
+    try:
+        if not isinstance(e, (NameError, AttributeError)):
+            return
+        tb = e.__traceback__
+        if tb is None:
+            return
+        while tb.tb_next is not None:
+            tb = tb.tb_next
+        if not tb.tb_frame.f_code.co_filename.startswith(_VERIF_DIR):
+            return
+        if isinstance(e, AttributeError):
+            obj = getattr(e, 'obj', None)
+            if obj is None:
+                return
+            mod = obj.__name__ if isinstance(obj, types.ModuleType) else type(obj).__module__
+            if (mod or '').split('.')[0] not in ('checks', 'sim'):
+                return
+        from sim import core
+        s = core.active()
+        if s is not None:
+            s.harness_errors.append(''.join(traceback.format_exception(e))[-3000:])
+    except Exception:
+        pass
+
+
 def exc_key(e):
     """Comparable identity of an exception value: type name + args."""
+    note_exc(e)
     return [type(e).__name__, _plain(e.args)]
 
 
